@@ -246,8 +246,15 @@ def check(pid: str, tier: str, seed: int, replay_path: str = None) -> int:
         os.makedirs(evdir, exist_ok=True)
         with open(os.path.join(evdir, pid + ".json"), "w") as fh:
             json.dump(evidence, fh, indent=1, default=str)
+        crashes = list(pool.CRASHES)
+        if crashes:
+            out_lines.append("NOTE: %d trace(s) were lost to exceptions inside the drivers (first: %s: %s)" % (
+                len(crashes), crashes[0]["where"], crashes[0]["crashed"].strip().splitlines()[-1][:200]))
         for line in out_lines:
             print(line)
+        if crashes and not violations:
+            # nothing was judged wrong, but part of the exploration did not happen: not a pass
+            raise tlc.MachineryError("driver exceptions and no violation to report:\n" + crashes[0]["crashed"])
         print("%s %s: %d traces, %d events judged, %d bounded-model states, %d violation(s), %d known-finding rejection(s), %.1fs" % (
             pid, tier, verdict["traces"], verdict["events"], sum(m["distinct"] for m in model_stats),
             len(violations), len(known), time.time() - t0))
